@@ -66,7 +66,7 @@ package utility
 //@   option intmode=math
 //@   requires [env!init] ten != nil
 //@   ensures [shape] (result1 == nil) == (result0 != nil)
-//@   ensures [exact] result1 == nil && len(s) > 0 && (exists m Int :: real(m) == decval(s) * real(@pow10(18)) && m < 1000000000000000000000000000000000000000000000000000000000000000000000000000000000000000000000000 && m > 0 - 1000000000000000000000000000000000000000000000000000000000000000000000000000000000000000000000000) ==> real(big(result0)) == decval(s) * real(@pow10(18))
+//@   ensures [exact] result1 == nil && len(s) > 0 && (exists m Int :: real(m) == decval(s) * real(1000000000000000000) && m < 1000000000000000000000000000000000000000000000000000000000000000000000000000000000000000000000000 && m > 0 - 1000000000000000000000000000000000000000000000000000000000000000000000000000000000000000000000000) ==> real(big(result0)) == decval(s) * real(1000000000000000000)
 //@   ensures [valid] decvalid(s) ==> result1 == nil
 //@   ensures [fresh] result1 == nil ==> fresh(result0)
 //@   modifies nothing
